@@ -543,7 +543,7 @@ func GoMethodListFunction(env *Zlisp, name string, args []Sexp) (Sexp, error) {
 	}
 	h, isHash := args[0].(*SexpHash)
 	if !isHash {
-		return SexpNull, fmt.Errorf("hash/record required, but saw type %T/val=%#v", args[0], args[0])
+		return SexpNull, fmt.Errorf("hash/record required, but saw type %T/val=%s", args[0], showForErr(args[0]))
 	}
 	if h.NumMethod != -1 {
 		// use cached results
